@@ -8,6 +8,7 @@ import (
 	"os"
 	"os/exec"
 	"sync"
+	"time"
 )
 
 // pool runs jobs on worker sub-processes (`ed worker`); jobs may be submitted from result callbacks.
@@ -81,9 +82,16 @@ func (p *pool) serve() {
 	var w *proc
 	defer func() {
 		if w != nil {
+			// closing stdin lets the worker clean up its scratch directory and exit
 			w.in.Close()
-			w.cmd.Process.Kill()
-			w.cmd.Wait()
+			done := make(chan struct{})
+			go func() { w.cmd.Wait(); close(done) }()
+			select {
+			case <-done:
+			case <-time.After(5 * time.Second):
+				w.cmd.Process.Kill()
+				<-done
+			}
 		}
 	}()
 	for {
@@ -122,6 +130,11 @@ func (p *pool) serve() {
 				jr = &JobResult{}
 				if e := json.Unmarshal(line, jr); e != nil {
 					jr = &JobResult{ID: it.job.ID, Err: "bad worker response: " + e.Error()}
+				}
+				if jr.Bye {
+					w.in.Close()
+					w.cmd.Wait()
+					w = nil
 				}
 			}
 		}
